@@ -237,9 +237,11 @@ func (s *bFiller) Fill(w io.Writer, stat decor.Statistics) error {
 
 	if curWidth != 0 {
 		if !stat.Completed || s.tip.onComplete {
-			tip = s.tip.frames[s.tip.count%uint(len(s.tip.frames))]
+			if t := s.tip.frames[s.tip.count%uint(len(s.tip.frames))]; t.width <= width {
+				tip = t
+				fillCount += tip.width
+			}
 			s.tip.count++
-			fillCount += tip.width
 		}
 		switch refWidth := 0; {
 		case stat.Refill != 0:
